@@ -43,9 +43,11 @@ def live_plain_tree(value):
         return [live_plain_tree(x) for x in (list.__iter__(value) if isinstance(value, list) else value)]
     if isinstance(value, dict):
         out = {}
-        for k, v in dict.items(value):
+        for i, (k, v) in enumerate(dict.items(value)):
             if isinstance(k, (int, float)) and not isinstance(k, bool):
                 k = str(k)
+            elif isinstance(k, (bytes, bytearray)):
+                k = "=bin%d" % i            # binary keys are written as base64 or hex text: never an XML name, fine elsewhere
             out[k] = live_plain_tree(v)
         return out
     return value
@@ -378,6 +380,12 @@ class PersistScenario(StateScenario):
         op = {"op": "mask", "how": how, "mask": rng.choice(MASKS + [None]), "virtual": rng.random() < 0.2}
         if how != "tree":
             op["fmt"] = rng.choice(ops.FORMATS)
+        if rng.random() < 0.2:
+            # a configuration object held by an untyped field (an `any` field of the root): "at any depth"
+            anys = [t for t in tgts if t.node["kind"] == "any" and "." not in t.path and "[" not in t.path and not t.node.get("dynamic")
+                    and not t.node.get("o", {}).get("sensitive") and not t.node.get("validator") and not t.node.get("o", {}).get("required")]
+            if anys:
+                op["stash"] = rng.choice(anys).path
         return op
 
     # =========================================================================== execution
@@ -812,6 +820,28 @@ class PersistScenario(StateScenario):
             return
         mask, how, virtual = op.get("mask"), op["how"], bool(op.get("virtual"))
         w = st.world
+        stash = op.get("stash")
+        if stash and mask is not None:
+            import cincoconfig as cc
+            sch = cc.Schema()
+            sch.token = cc.StringField(sensitive=True)
+            sch.note = cc.StringField()
+            held = sch()
+            held.token, held.note = "stash!secret#%d" % w.step, "visible"
+            old_value, e_old = self._call(lambda: getattr(cfg, stash))
+            _, e_set = self._call(lambda: setattr(cfg, stash, held))
+            if e_old is not None or e_set is not None:
+                stash = None
+            else:
+                try:
+                    self._masked_render(st, cfg, op, rec, mask, how, virtual, stash, held)
+                finally:
+                    self._call(lambda: setattr(cfg, stash, old_value))
+                return
+        self._masked_render(st, cfg, op, rec, mask, how, virtual, None, None)
+
+    def _masked_render(self, st, cfg, op, rec, mask, how, virtual, stash, held):
+        w = st.world
         plain_tree, err0 = self._call(lambda: cfg.to_tree(virtual=virtual))
         if err0 is not None:
             rec.log("mask", "to_tree-raised")
@@ -841,15 +871,26 @@ class PersistScenario(StateScenario):
         if err is not None:
             rec.fail("C10/render", "C10/masked-render-raises/%s/%s" % (how, type(err).__name__), "rendering with mask %r raised %r" % (mask, err))
         rec.relevant += 1
-        self.check_mask(st, cfg, rec, mask, how, tree, plain_tree, content, op.get("fmt"))
+        if stash:
+            rec.check()
+            expect = mask * len(held.token) if len(mask) == 1 else mask
+            slot = self.tree_at(tree, stash) if tree is not None else None
+            if tree is not None and not (isinstance(slot, dict) and slot.get("token") == expect and slot.get("note") == "visible"):
+                rec.fail("C10/masked", "C10/sensitive-not-masked/%s/config-held-by-untyped-field" % how,
+                         "a configuration held by the untyped field %s renders as %r under mask %r" % (stash, slot, mask))
+            if content is not None and held.token.encode() in content:
+                rec.fail("C10/masked", "C10/sensitive-plaintext-in-document/%s/config-held-by-untyped-field" % op.get("fmt"),
+                         "the sensitive value of a configuration held by the untyped field %s occurs in the document" % stash)
+            rec.probe("config-held-by-untyped-field-masked")
+        self.check_mask(st, cfg, rec, mask, how, tree, plain_tree, content, op.get("fmt"), skip=(stash,) if stash else ())
 
-    def check_mask(self, st, cfg, rec, mask, how, tree, plain_tree, content, fmt):
+    def check_mask(self, st, cfg, rec, mask, how, tree, plain_tree, content, fmt, skip=()):
         """tree: masked tree (None for XML documents: only the byte scan applies there)."""
         sens = []     # (path, value, node)
         nons = []
 
         def visit(path, node, value):
-            if node["kind"] in ("method",) or schema.is_cfg_node(node) or value is schema.MISSING:
+            if node["kind"] in ("method",) or schema.is_cfg_node(node) or value is schema.MISSING or path in skip:
                 return
             if node.get("dynamic"):
                 nons.append((path, value, node))
